@@ -3134,14 +3134,13 @@ func (p *Posix) DeleteObject(ctx context.Context, input *s3.DeleteObjectInput) (
 				if err != nil {
 					return nil, err
 				}
-				err = os.Remove(objpath)
-				if err != nil {
-					return nil, fmt.Errorf("remove obj version: %w", err)
-				}
-
 				verifhook.Point("del.afterRemove")
 				ents, err := os.ReadDir(versionPath)
 				if errors.Is(err, fs.ErrNotExist) {
+					err = os.Remove(objpath)
+					if err != nil {
+						return nil, fmt.Errorf("remove obj version: %w", err)
+					}
 					p.removeParents(bucket, object)
 					return &s3.DeleteObjectOutput{
 						DeleteMarker: &isDelMarker,
@@ -3153,6 +3152,10 @@ func (p *Posix) DeleteObject(ctx context.Context, input *s3.DeleteObjectInput) (
 				}
 
 				if len(ents) == 0 {
+					err = os.Remove(objpath)
+					if err != nil {
+						return nil, fmt.Errorf("remove obj version: %w", err)
+					}
 					p.removeParents(bucket, object)
 					return &s3.DeleteObjectOutput{
 						DeleteMarker: &isDelMarker,
@@ -3160,6 +3163,9 @@ func (p *Posix) DeleteObject(ctx context.Context, input *s3.DeleteObjectInput) (
 					}, nil
 				}
 
+				// the latest version is not removed first: linking the
+				// promoted version below replaces it atomically, so the
+				// key never appears missing in between
 				srcObjVersion, err := ents[len(ents)-1].Info()
 				if err != nil {
 					return nil, fmt.Errorf("get file info: %w", err)
@@ -3188,11 +3194,9 @@ func (p *Posix) DeleteObject(ctx context.Context, input *s3.DeleteObjectInput) (
 					return nil, fmt.Errorf("copy object %w", err)
 				}
 
-				if err := f.link(); err != nil {
-					return nil, fmt.Errorf("link tmp file: %w", err)
-				}
-
-				verifhook.Point("del.afterPromoteLink")
+				// set the attributes of the promoted version on the temp file
+				// before it is linked, so that the object never becomes
+				// visible without its ETag and metadata
 				attrs, err := p.meta.ListAttributes(versionPath, srcVersionId)
 				if err != nil {
 					return nil, fmt.Errorf("list object attributes: %w", err)
@@ -3204,13 +3208,18 @@ func (p *Posix) DeleteObject(ctx context.Context, input *s3.DeleteObjectInput) (
 						return nil, fmt.Errorf("load %v attribute", attr)
 					}
 
-					err = p.meta.StoreAttribute(nil, bucket, object, attr, data)
+					err = p.meta.StoreAttribute(f.File(), bucket, object, attr, data)
 					if err != nil {
 						return nil, fmt.Errorf("store %v attribute", attr)
 					}
 				}
 
 				verifhook.Point("del.afterPromoteAttrs")
+				if err := f.link(); err != nil {
+					return nil, fmt.Errorf("link tmp file: %w", err)
+				}
+
+				verifhook.Point("del.afterPromoteLink")
 				err = os.Remove(filepath.Join(versionPath, srcVersionId))
 				if err != nil {
 					return nil, fmt.Errorf("remove obj version %w", err)
